@@ -34,6 +34,21 @@ def get_db(variant):
             z = Optional(int)
         class D(B):
             w = Optional(int)
+    elif variant == 'diamond':
+        # multiple inheritance: F derives from B and from E, whose path to the root has two steps (A <- C <- E)
+        class A(db.Entity):
+            id = PrimaryKey(int)
+            x = Required(int)
+            hs = Set('H', reverse='ref')
+            hs2 = Set('H', reverse='ref2')
+        class B(A):
+            y = Optional(int)
+        class C(A):
+            z = Optional(int)
+        class E(C):
+            v = Optional(int)
+        class F(B, E):
+            w = Optional(int)
     else:
         class A(db.Entity):
             id = PrimaryKey(int)
@@ -86,6 +101,75 @@ PROGRAMS = [
 ]
 
 
+def diamond_programs():
+    names = ['A', 'B', 'C', 'E', 'F']
+    out = []
+    for X in names:
+        v = X.lower()
+        out.append('(%s for %s in %s)' % (v, v, X))
+        out.append('(%s.id for %s in %s if %s.x > x)' % (v, v, X, v))
+        for Y in names:
+            out.append('(%s for %s in %s if isinstance(%s, %s))' % (v, v, X, v, Y))
+            out.append('(%s for %s in %s if not isinstance(%s, %s))' % (v, v, X, v, Y))
+        for Y, Z in (('B', 'E'), ('C', 'F'), ('E', 'F'), ('B', 'C')):
+            out.append('(%s for %s in %s if isinstance(%s, (%s, %s)))' % (v, v, X, v, Y, Z))
+    out += ['(h for h in H if isinstance(h.ref, E))', '(h for h in H if isinstance(h.ref, (B, E)))', '(h.ref for h in H if h.k > x)', '((e.id, len(e.hs)) for e in E)',
+            '(c for c in C if c.hs)', '(f.v for f in F)', '(f.y for f in F)', '(e.v for e in E)', '(b.y for b in B)', '(c.z for c in C)', '(h for h in H if h.ref in (e for e in E))',
+            '(h for h in H if h.ref in (b for b in B if isinstance(b, C)))', '((b.id, h.id) for b in B for h in H if h.ref == b)']
+    return out
+
+
+def lookup_tie(rep, db, S, variant):
+    """Concrete tie on solver-chosen databases: X[pk], X.get(id=pk), X.exists(id=pk) for every class X and every stored row, with the row
+    not yet seen, already loaded by a query over the root, and known as a bare reference - a row is found through X exactly
+    when its class is X or a subclass of X, and the object keeps its class."""
+    from pony.orm import db_session
+    from pony.orm.core import ObjectNotFound
+    from engine.symsql import e1
+    root = db.A
+    classes = [e for e in db.entities.values() if issubclass(e, root)]
+    code2cls = {cls._discriminator_: cls for cls in classes}
+    dcol = root._discriminator_attr_.columns[0]
+    s = z3.Solver(); s.set('timeout', 5000)
+    s.add(*S.constraints)
+    rows = S.tables['A']
+    for r in rows: s.add(r.present)
+    for r in S.tables['H']: s.add(r.present, z3.Not(r.cols['ref'].n))
+    if len(rows) >= 2: s.add(rows[0].cols[dcol].t != rows[1].cols[dcol].t)
+    for attempt in range(4):
+        if s.check() != z3.sat: break
+        m = s.model()
+        tables = symdb.concrete_rows(S, m)
+        e1.populate(db, tables)
+        bad = []
+        for warm in ('cold', 'loaded', 'seed'):
+            for X in classes:
+                for r in tables['A']:
+                    real = code2cls[r[dcol]]
+                    want = issubclass(real, X)
+                    try:
+                        with db_session:
+                            if warm == 'loaded': root.select()[:]
+                            elif warm == 'seed': [h.ref for h in db.H.select()]
+                            got = X.get(id=r['id'])
+                            ex = X.exists(id=r['id'])
+                            try: idx = X[r['id']]
+                            except ObjectNotFound: idx = None
+                            for how, o in (('get', got), ('[]', idx)):
+                                if (o is not None) != want: bad.append((warm, X.__name__, how, r['id'], real.__name__, 'found' if o is not None else 'not found'))
+                                elif o is not None and type(o) is not real: bad.append((warm, X.__name__, how, r['id'], real.__name__, 'class ' + type(o).__name__))
+                            if bool(ex) != want: bad.append((warm, X.__name__, 'exists', r['id'], real.__name__, ex))
+                    except Exception as exn:
+                        bad.append((warm, X.__name__, 'raised', r['id'], real.__name__, '%s: %s' % (type(exn).__name__, str(exn)[:80])))
+        name = '[%s discriminator] lookup tie %d' % (variant, attempt)
+        if bad:
+            rep.add(Ob(name, 'concrete-tie', CEX, detail='(cache state, class, lookup, pk, stored class, outcome): %r' % bad[:6], cex={'tables': tables, 'wrong': bad[:20]},
+                       reproduced=True, key='wrong-lookup', replay='# C27 lookup tie on %r: %r\nraise SystemExit(1)\n' % (tables, bad[:6])))
+            return
+        rep.add(Ob(name, 'concrete-tie', HOLDS))
+        s.add(z3.Or([r.cols[dcol].t != m.eval(r.cols[dcol].t, model_completion=True) for r in rows]))
+
+
 def class_tie(rep, db, S, variant, src, scope):
     """Concrete tie on solver-chosen databases: run the real query in a fresh session and compare the CLASS of every returned
     object with the class its row's discriminator denotes (objects keep their class however they are reached)."""
@@ -93,7 +177,7 @@ def class_tie(rep, db, S, variant, src, scope):
     from pony.orm.core import Entity
     from engine.symsql import e1
     root = db.A
-    code2cls = {cls._discriminator_: cls.__name__ for cls in [root] + list(root._subclasses_)}
+    code2cls = {cls._discriminator_: cls.__name__ for cls in db.entities.values() if issubclass(cls, root)}
     dcol = root._discriminator_attr_.columns[0]
     s = z3.Solver(); s.set('timeout', 5000)
     s.add(*S.constraints)
@@ -139,11 +223,12 @@ def run(tier, seed, only=None):
     c01.PID = 'C27'
     R = 2 if tier == 'quick' else 3
     n = 0
-    for variant in ('str', 'int'):
+    for variant in ('str', 'int', 'diamond'):
         db = get_db(variant)
         S = symdb.build(db, R=R, strlen=3)
         c01._cache['sqlite'] = db            # replay uses c01.get_db('sqlite')
-        for src in PROGRAMS:
+        if not only or only == 'lookup': lookup_tie(rep, db, S, variant)
+        for src in (diamond_programs() if variant == 'diamond' else PROGRAMS):
             if only and only not in src: continue
             names = {x.id for x in ast.walk(ast.parse(src)) if isinstance(x, ast.Name)}
             prog = Program(src, {'x': ('int', 1)} if 'x' in names else {}, 'string', variant)
@@ -158,7 +243,7 @@ def run(tier, seed, only=None):
                 class_tie(rep, db, S, variant, src, prog.scope)
     c01._cache.pop('sqlite', None)
     rep.programs = n
-    rep.bounds = {'hierarchy': 'A <- B <- D, A <- C; H.ref -> A (optional), A.hs reverse set', 'rows per table': R,
+    rep.bounds = {'hierarchy': 'A <- B <- D, A <- C (string and integer codes); diamond A <- B, A <- C <- E, F(B, E); H.ref -> A (optional), A.hs reverse set', 'rows per table': R,
                   'discriminator': 'symbolic per row over the declared codes (string codes and integer codes 1..4)', 'programs': len(PROGRAMS)}
     rep.assumptions = ['inputs inside the regions of the findings recorded for C01 (%s) are excluded: they are reported by C01' % ', '.join(C01_KEYS),
                        'single-table inheritance rows: columns of classes the row does not belong to are NULL; discriminator values outside the declared codes do not occur',
